@@ -208,6 +208,13 @@ class RegExp:
         else:
             start_pos = self.lastIndex if (self._global or self._sticky) else 0
 
+        if start_pos > len(string):
+            # A lastIndex beyond the end of the string: no match, and the
+            # position starts over (the matcher is only given positions inside
+            # the string or at its end)
+            self.lastIndex = 0
+            return None
+
         if self._sticky:
             result = vm.match(string, start_pos)
             if result:
